@@ -59,24 +59,29 @@ func NewValidatorSet(vals []*Validator) *ValidatorSet {
 	return vs
 }
 
-// TODO: mind the overflow when times and votingPower shares too large.
+// IncrementAccum advances the weighted round-robin by `times` rounds, one round at a time,
+// so that IncrementAccum(n) gives the same accums and the same proposer as n calls of
+// IncrementAccum(1): a replica that skips rounds must select the same proposer as a replica
+// that visits every round.
+// TODO: mind the overflow when votingPower shares too large.
 func (valSet *ValidatorSet) IncrementAccum(times int64) {
-	// Add VotingPower * times to each validator and order into heap.
+	for i := int64(0); i < times; i++ {
+		valSet.incrementAccumOnce()
+	}
+}
+
+func (valSet *ValidatorSet) incrementAccumOnce() {
+	// Add VotingPower to each validator and order into heap.
 	validatorsHeap := gcmn.NewHeap()
 	for _, val := range valSet.Validators {
-		val.Accum += int64(val.VotingPower) * int64(times) // TODO: mind overflow
+		val.Accum += int64(val.VotingPower) // TODO: mind overflow
 		validatorsHeap.Push(val, accumComparable(val.Accum))
 	}
 
-	// Decrement the validator with most accum, times times.
-	for i := 0; i < int(times); i++ {
-		mostest := validatorsHeap.Peek().(*Validator)
-		if i == int(times-1) {
-			valSet.proposer = mostest
-		}
-		mostest.Accum -= int64(valSet.TotalVotingPower())
-		validatorsHeap.Update(mostest, accumComparable(mostest.Accum))
-	}
+	// Decrement the validator with most accum: it is the proposer of this round.
+	mostest := validatorsHeap.Peek().(*Validator)
+	valSet.proposer = mostest
+	mostest.Accum -= int64(valSet.TotalVotingPower())
 }
 
 func (valSet *ValidatorSet) Copy() *ValidatorSet {
